@@ -411,6 +411,13 @@ func preLoop(term string, c0 int) bool {
 
 func (e *Engine) havocLoopState(st *State, fr *Frame, writes map[string]bool, lwrites map[*ssa.Alloc]bool, c0 int) {
 	depth := len(st.frames)
+	// the allocation frontier first: a local written by the loop may hold a reference allocated in an earlier iteration, so
+	// "allocated" for the havocked locals means below the frontier AFTER the loop's allocations (doing it in the other order
+	// made the state after the cut inconsistent whenever such a local was also known to be fresh: found by the must-fail
+	// corpus, mutant c18-bls-lagrange-last-factor-dropped)
+	if writes["$alloc"] {
+		st.bumpFrontier()
+	}
 	var allocs []*ssa.Alloc
 	for a := range lwrites {
 		allocs = append(allocs, a)
@@ -436,8 +443,7 @@ func (e *Engine) havocLoopState(st *State, fr *Frame, writes map[string]bool, lw
 			continue
 		}
 		if h == "$alloc" {
-			st.bumpFrontier()
-			continue
+			continue // bumped above
 		}
 		st.havocHeap(h)
 	}
